@@ -642,6 +642,68 @@ theorem trans_C14_attempts_after_deliveries_v2 (o : T_v2_operation) (n : Nat) (h
     simp only [Nat.repeat, v2_op_Attempt, v2_op_MakeAttempt, u32] at this ⊢
     rw [this]; omega
 
+/-! ### Batcher: the audit arm of the loop and the choice of a batch's MaxOperationTime
+
+Translated from deep inside `Start` / `processBatch` (a `select` arm, a goroutine closure). Inputs: the buffer size
+read by the arm, the time since the last flush with records, the Batcher's MaxOperationTime, v2's drain of the slot
+channel (`confirmInflightIsZero`, a channel operation) and the watcher's MaxOperationTime. The event raised is
+returned as "<event constant>|<message constant>". -/
+
+/-- the name of the event (and message) each audit outcome of the model stands for -/
+def auditEv : AuditOutcome → String
+  | .pass => "AuditPassEvent|"
+  | .skip => "AuditSkipEvent|"
+  | .failTarget => "AuditFailEvent|AuditMsgFailureOnTarget"
+  | .failInflight => "AuditFailEvent|AuditMsgFailureOnInflight"
+  | .failBoth => "AuditFailEvent|AuditMsgFailureOnTargetAndInflight"
+
+/-- the model's audit, as a function of what the arm reads (cf. `auditCond`, `auditOutcome`, `doAudit`) -/
+def auditSpecV2 (target bufSize sinceLast mot : Nat) (slotsHeld : Bool) : Nat × AuditOutcome :=
+  if bufSize = 0 ∧ sinceLast > mot then
+    (0, if target > 0 ∧ slotsHeld then .failBoth else if target > 0 then .failTarget else if slotsHeld then .failInflight else .pass)
+  else (target, .skip)
+
+/-- v2: the audit arm zeroes the demand and names the failure exactly as the machine's `doAudit` / `auditOutcome`
+do, for every demand, buffer size, idle time, MaxOperationTime and slot state -/
+theorem trans_C03_C10_C19_auditArm_v2 (target bufSize sinceLast mot : Nat) (inflightIsZero : Bool) :
+    v2_auditArm ⟨target⟩ bufSize sinceLast mot inflightIsZero =
+      (⟨((auditSpecV2 target bufSize sinceLast mot (!inflightIsZero)).1 : Nat)⟩,
+       auditEv (auditSpecV2 target bufSize sinceLast mot (!inflightIsZero)).2) := by
+  by_cases h1 : bufSize = 0 <;> by_cases h2 : sinceLast > mot <;> by_cases h3 : 0 < target <;> cases inflightIsZero <;>
+    simp [v2_auditArm, v2_confirmTargetIsZero, auditSpecV2, auditEv, u32, h1, h2, h3] <;> omega
+
+/-- v1: the same with `trySetTargetToZero` and one kind of failure -/
+theorem trans_C03_C19_auditArm_v1 (target bufLen sinceLast mot : Nat) :
+    v1_auditArm ⟨target⟩ bufLen sinceLast mot =
+      (if bufLen = 0 ∧ sinceLast > mot then (⟨0⟩, if target > 0 then "AuditFailEvent|text" else "AuditPassEvent|")
+       else (⟨(target : Int)⟩, "AuditSkipEvent|")) := by
+  have e1 : bufLen = 0 ↔ (bufLen : Int) < 1 := by omega
+  by_cases h1 : (bufLen : Int) < 1 <;> by_cases h2 : sinceLast > mot <;> by_cases h3 : 0 < target <;>
+    simp [v1_auditArm, v1_trySetTargetToZero, u32, e1, h1, h2, h3] <;> omega
+
+/-- the spec above IS the machine's audit: condition, outcome and what `doAudit` leaves in the demand -/
+theorem trans_C03_C10_C19_auditSpec_is_doAudit (c : BCfg) (s : St) (hg : c.gen = .v2) :
+    let sinceLast := match s.lastFlush with | none => c.mot + 1 | some t => s.now - t
+    auditSpecV2 s.target s.bm.buf.items.length sinceLast c.mot (decide (s.slots > 0)) =
+      ((doAudit c s).target, auditOutcome c s) := by
+  cases hl : s.lastFlush <;> cases hi : s.bm.buf.items <;>
+    by_cases ht : 0 < s.target <;> by_cases hs : 0 < s.slots <;>
+    simp [auditSpecV2, doAudit, auditOutcome, auditCond, hg, hl, hi, ht, hs] <;> (try omega)
+  all_goals (split <;> rfl)
+
+/-- a batch's time limit: the watcher's MaxOperationTime if it is set, else the Batcher's (`effMot`, C11) -/
+theorem trans_C11_effMot_v2 (r : T_v2_batcher) (mot wMot : Nat) :
+    v2_effMot r mot wMot = (if wMot > 0 then wMot else mot : Nat) := by
+  by_cases h : wMot > 0 <;> simp [v2_effMot, h]
+
+theorem trans_C11_effMot_v1 (r : T_v1_Batcher) (mot wMot : Nat) :
+    v1_effMot r mot wMot = (if wMot > 0 then wMot else mot : Nat) := by
+  by_cases h : wMot > 0 <;> simp [v1_effMot, h]
+
+theorem trans_C11_effMot_is_model (c : BCfg) (w : Nat) (r : T_v2_batcher) :
+    v2_effMot r c.mot (c.wMot w) = (effMot c w : Nat) := by
+  rw [trans_C11_effMot_v2]; simp [effMot]
+
 /-! ### non-vacuity: the translated functions on concrete values (also a readable trace of what they compute) -/
 
 example : v2_incTarget ⟨7⟩ 5 = ⟨12⟩ ∧ v2_incTarget ⟨7⟩ (-5) = ⟨2⟩ ∧ v2_incTarget ⟨7⟩ (-9) = ⟨0⟩ ∧ v2_incTarget ⟨7⟩ 0 = ⟨7⟩ := by decide
@@ -666,5 +728,7 @@ example : issueGuard (heldIdx [true, false, true, false]) 3 4 (v2_sr_pick ⟨1, 
 example : v2_op_Attempt (v2_op_MakeAttempt ⟨5, 4294967295, true⟩) = 0 := by decide   -- the wrap the guard excludes
 example : v2_sr_requirements ⟨0, 0, 0⟩ = (⟨1, 500, 0⟩, "") ∧ v2_sr_requirements ⟨0, 0, 1⟩ = (⟨0, 0, 1⟩, "ImproperOrderError") := by decide
 example : (v1_sr_requirements ⟨0, 0, 10, true, 0⟩) = (⟨1, 500, 10, true, 0⟩, "") := by decide
+example : v2_auditArm ⟨7⟩ 0 11 10 false = (⟨0⟩, "AuditFailEvent|AuditMsgFailureOnTargetAndInflight") ∧
+          v2_auditArm ⟨7⟩ 1 11 10 false = (⟨7⟩, "AuditSkipEvent|") ∧ v2_auditArm ⟨0⟩ 0 11 10 true = (⟨0⟩, "AuditPassEvent|") := by decide
 
 end GoBatcher.ExpectTrans
